@@ -282,30 +282,37 @@ pub struct RootInfo {
     pub cap: usize,
     /// length of the root's `as_uninit()` (`None` if it panicked); must equal `cap`
     pub reported_cap: Option<usize>,
+    /// offset of the root's `as_uninit()` from the base of the allocation; must be 0
+    pub reported_off: usize,
 }
 
 impl RootInfo {
-    /// `cap` is the capacity the real container was built with, *not* taken from compio-buf
+    /// `cap` is the capacity the real container was built with; pointer and capacity are taken from the container
+    /// itself (`root_alloc`), never from compio-buf — offsets and the out-of-allocation guards are relative to the
+    /// true base even when `as_init` / `as_uninit` report something else
     pub fn of(v: &mut BV, cap: usize) -> Self {
-        let u = catch(|| {
+        let (ptr, ccap) = v.root_alloc();
+        assert_eq!(ccap, cap, "container capacity");
+        let reported = catch(|| {
             let u = (*v).as_uninit();
             (u.as_ptr() as *const u8, u.len())
         });
-        match u {
-            Ok((ptr, n)) => RootInfo { ptr, cap, reported_cap: Some(n) },
-            Err(_) => {
-                let ptr = catch(|| (*v).as_init().as_ptr()).unwrap_or(std::ptr::null());
-                RootInfo { ptr, cap: if ptr.is_null() { 0 } else { cap }, reported_cap: None }
-            }
+        match reported {
+            // a writable region that does not start at the base of the allocation is reported as a wrong capacity
+            Ok((p, n)) => RootInfo { ptr, cap, reported_cap: Some(n), reported_off: (p as usize).wrapping_sub(ptr as usize) },
+            Err(_) => RootInfo { ptr, cap, reported_cap: None, reported_off: 0 },
         }
     }
 
     /// monitor: a root's writable region is its whole capacity
     pub fn monitor(&self, ex: &mut Exec, ctx: &str) {
-        if self.reported_cap != Some(self.cap) {
+        if self.reported_cap != Some(self.cap) || self.reported_off != 0 {
             ex.fail(
                 "C10:root-capacity",
-                format!("{ctx}: the container has capacity {} but its as_uninit() has length {:?}", self.cap, self.reported_cap),
+                format!(
+                    "{ctx}: the container's allocation is 0+{} but its as_uninit() is {}+{:?}",
+                    self.cap, self.reported_off, self.reported_cap
+                ),
             );
         }
     }
@@ -405,11 +412,15 @@ fn range_of(b: usize, e: Option<usize>) -> (Bound<usize>, Bound<usize>) {
 
 impl Machine {
     pub fn new() -> Self {
-        Machine { st: St::Dead, ri: RootInfo { ptr: std::ptr::null(), cap: 0, reported_cap: Some(0) }, kind: String::new(), growable: false }
+        Machine { st: St::Dead, ri: RootInfo { ptr: std::ptr::null(), cap: 0, reported_cap: Some(0), reported_off: 0 }, kind: String::new(), growable: false }
     }
 
     pub fn alive(&self) -> bool {
         !matches!(self.st, St::Dead)
+    }
+
+    pub fn root_cap(&self) -> usize {
+        self.ri.cap
     }
 
     pub fn in_reader(&self) -> bool {
@@ -567,7 +578,7 @@ impl Machine {
                 };
                 ex.tag("flatten");
                 // monitor: flatten shows the same ranges as the nested slice it replaces
-                let ri = RootInfo { ptr: self.ri.ptr, cap: self.ri.cap, reported_cap: self.ri.reported_cap };
+                let ri = RootInfo { ptr: self.ri.ptr, cap: self.ri.cap, reported_cap: self.ri.reported_cap, reported_off: self.ri.reported_off };
                 let mut disagree: Option<String> = None;
                 let dis = &mut disagree;
                 let out = self.ctor(ex, line, false, move |v| {
@@ -998,7 +1009,7 @@ impl Machine {
         for i in len..cap {
             unsafe { *ptr.add(i) = 0xCC };
         }
-        self.ri = RootInfo { ptr, cap, reported_cap: Some(cap) };
+        self.ri = RootInfo { ptr, cap, reported_cap: Some(cap), reported_off: 0 };
         cap
     }
 
@@ -1242,11 +1253,15 @@ fn fresh_bytes(rng: &mut Rng, k: usize) -> Vec<u8> {
 /// apply `l`; if it is a reserve / extend that has to grow the root, run it in probe mode (`?`) and return the
 /// line completed with the capacity the real container chose, so that the case carries the allocator's answer
 fn apply_resolving(m: &mut Machine, l: String, scratch: &mut Exec) -> String {
+    let cap0 = m.root_cap();
     let o = safe_apply(m, &l, scratch);
     if o == "res:need-cap" || o == "ext:grow" {
-        let o2 = safe_apply(m, &format!("{l} ?"), scratch);
-        if let Some(c) = o2.strip_prefix("res:cap-is:").or_else(|| o2.strip_prefix("ext:cap-is:")) {
-            return format!("{l} {c}");
+        // whatever the probing call answers (it may end in `ub` / `panic` after the growth): the root has grown,
+        // and the finished line has to say to what
+        safe_apply(m, &format!("{l} ?"), scratch);
+        let cap1 = m.root_cap();
+        if cap1 != cap0 {
+            return format!("{l} {cap1}");
         }
     }
     l
